@@ -348,6 +348,26 @@ def run(pid, tier, seed, replay=None):
                         idx["popen-real-%s-%s" % (ty, m)] = "# pass-through: ivh_popen_real %s under %s\n" % (ty, m)
                         nreal += 1
             tfs = tfs + [rt]
+        if pid == "C10" and not replay:
+            # the forked-child clause with a child that keeps using the library needs a real fork
+            # (the simulated one does not duplicate the address space): pass-through scenario
+            import subprocess
+            rexe = vlib.build_harness("ivh_sigfork_real", ["ivh_sigfork_real.c"], "plain")
+            rt = sc.path("real", "sigfork-real.ndjson")
+            with open(rt, "w") as f:
+                for pf in (0, 1, 2, 3):
+                    for cm in (0, 1, 2, 3, 4):
+                        for m in coregen_methods():
+                            env = dict(os.environ, IV_EXCLUDE_POLL_METHOD=excl(m))
+                            r = subprocess.run([rexe, str(pf), str(cm)], stdout=subprocess.PIPE, stderr=subprocess.DEVNULL, text=True, timeout=150, env=env)
+                            r_out = r.stdout
+                            if '"End"' not in r_out:
+                                r_out += '{"t":0,"e":"End","why":"crash","sig":%d,"now":[0,0]}\n' % abs(r.returncode)
+                            sid = "sigfork-real-%d-%d-%s" % (pf, cm, m)
+                            f.write(r_out.replace('"sigfork-real-%d-%d"' % (pf, cm), '"%s"' % sid))
+                            idx[sid] = "# pass-through: ivh_sigfork_real %d %d under %s\n" % (pf, cm, m)
+                            nreal += 1
+            tfs = tfs + [rt]
         verdicts, nev = vlib.validate_traces(tfs, sc)
         if len(verdicts) != len(scripts) + nreal:
             raise vlib.MachineryError("%d scripts but %d verdicts" % (len(scripts), len(verdicts)))
@@ -378,7 +398,7 @@ def run(pid, tier, seed, replay=None):
                 elif r in ("C18:crash", "C07:hang-real"):
                     bad.setdefault(v["id"], []).append(pid + (":crash" if "crash" in r else ":hang-real"))
         pick, rules_seen = [], set()
-        for sid in [x for x in bad if x.startswith("popen-real-")]:
+        for sid in [x for x in bad if x.startswith(("popen-real-", "sigfork-real-"))]:
             # the real fork / exec scenario (already repeated until the child's report was there)
             for r in sorted(set(bad.pop(sid))):
                 rep.violation(sign(pid, r, idx[sid]), vlib.save_replay_text(pid, idx[sid]), "scenario %s" % sid)
